@@ -250,6 +250,10 @@ def scheduler_case(rng, rec, case):
         ntasks = rng.randint(2, 5)
         names = rng.sample(NAMES, ntasks)
         if rng.random() < 0.3:
+            # two legal names that differ only by surrounding white space
+            base = rng.choice(['pair', 'a b'])
+            names[0], names[1] = base, rng.choice([base + ' ', ' ' + base])
+        if rng.random() < 0.3:
             names[rng.randrange(ntasks)] = rng.choice(BAD_NAMES)
         scripted = {}
         graph = DepGraph()
